@@ -10,9 +10,9 @@ TB = ("Trusted: CBMC 6.11 (goto-cc, goto-instrument --dfcc, cbmc + MiniSat/kissa
 CHECKS = {
  "C01": dict(
    cat="proof",
-   text="FRAGMENT (operator / accessor level): at check time the REAL nanoc (rebuilt from the tree) is run on 27 one-function template programs; the emitted nl_<op> "
+   text="FRAGMENT (operator / accessor level): at check time the REAL nanoc (rebuilt from the tree) is run on 39 one-function template programs (int/bool operators, accessors, string ==/!=, float operators); the emitted nl_<op> "
         "functions (cut out mechanically, plus the emitted helpers they call) are proved equal to the spec functions of contracts/spec_int.h for all operand values on the "
-        "common domain (the VM handlers are proved equal to the SAME spec functions under C02.vm.*, so per-operator agreement follows), and the emitted accessor functions "
+        "common domain (string equality: lengths <= 4 = bounded; float * and /: corner cases full domain, values on 8/4 significant fraction bits = bounded; the VM handlers are proved equal to the SAME spec functions under C02.vm.*, so per-operator agreement follows), and the emitted accessor functions "
         "pass the user's index unmodified to the runtime accessors and return their result. Programs (control flow, printing, scoping): NOT decided.",
    ref="DESIGN 5/C01, 3.1 item 4, 10.5", note=TB + " Extraction keeps nl_<name> + emitted helpers, drops the rest of the generated TU; (INT64_MIN,-1) and divisor 0 excluded for native div/mod (recorded finding).",
    tech="CBMC on C emitted by the real transpiler for a template catalogue (mechanical extraction per run), spec functions shared with the VM obligations"),
@@ -78,10 +78,11 @@ CHECKS = {
  "C19": dict(
    cat="proof",
    text="FRAGMENT (instruction encoder only): 2-safety by self-composition of the real isa_encode for each of the 256 opcode bytes: two instructions that agree on the "
-        "opcode and on the operand fields the table row names, arbitrary in everything else (padding, unused slots, operand_types, byte_length), encode to identical bytes. "
-        "Serializer, bytecode generator, transpiler, drivers: NOT decided.",
+        "opcode and on the operand fields the table row names, arbitrary in everything else (padding, unused slots, operand_types, byte_length), encode to identical bytes; "
+        "and the bytecode generator's emit_op (real codegen.c) for every defined opcode, arbitrary operand values and buffer fill level: bytes emitted are the encoding of "
+        "exactly the operands passed, at the returned offset, memory-safe across buffer growth. Serializer, the rest of the generator, transpiler, drivers: NOT decided.",
    ref="DESIGN 5/C19", note=TB + " Everything upstream of the encoder needs whole-program information flow and is outside contract reach.",
-   tech="CBMC self-composition harness on the real isa_encode, case split over 256 opcode bytes"),
+   tech="CBMC self-composition harness on the real isa_encode (256 opcode bytes) + functional-determinism obligation on the real emit_op per defined opcode"),
 
  "C20": dict(
    cat="proof",
